@@ -76,6 +76,15 @@ def step (d : DState) (line : String) : DState × Option String :=
       | (.error e', s') =>
         (d, some s!"err {e'.name} {match s'.fault with | .zombie _ => "zombie" | _ => "clean"}")
     | _, _, _, _, _ => (d, some "bad-op")
+  | some [.atom "wcap", .atom tid, .atom cap, .atom budget, v, .atom refs] =>
+    match d.ty? tid, cap.toNat?, toVal v, parseRefs refs with
+    | some t, some c, some v, some rs =>
+      let frames := match budget.toNat? with | some b => [b] | none => []
+      let s : Snk := { cap := some c, frames, chan := { refs := rs } }
+      match serialize t v s with
+      | (.ok _, s') => (d, some s!"ok {toHex s'.out}")
+      | (.error e, s') => (d, some s!"err {e.name} {s'.out.length}")
+    | _, _, _, _ => (d, some "bad-op")
   | some [.atom "fault", .atom "w", .atom tid, .atom k, .atom en, v, .atom refs] =>
     match d.ty? tid, k.toNat?, Err.ofName? en, toVal v, parseRefs refs with
     | some t, some k, some e, some v, some rs =>
